@@ -115,6 +115,15 @@ impl Default for Narrowing {
     }
 }
 
+/// Whether a provenance is the parameter or a field path below it.
+fn rooted_at_parameter(provenance: &Provenance) -> bool {
+    match provenance {
+        Provenance::Parameter => true,
+        Provenance::Field(parent, _) => rooted_at_parameter(parent),
+        _ => false,
+    }
+}
+
 /// Apply a type narrowing based on provenance.
 ///
 /// When a type check succeeds on a value with known provenance, this function
@@ -186,9 +195,16 @@ pub fn apply_narrowing(
             // whose source is a field of an enclosing parameter resolves `Parameter` against the
             // current scope, so without this guard a stable `never` narrowing recurses forever —
             // Field → Parameter → Field …)
+            //
+            // The stored source provenance was computed in the ENCLOSING scope. A `Parameter` inside
+            // it (`$.1 { … }`, `~.0 { … }`: `Field(Parameter, i)`) means the enclosing parameter, but
+            // would be resolved against the current scope — narrowing field `i` of this block's own
+            // parameter, which made it `never` (`#['int, ('bin | [])] { $.1 { =0x6b => ='bin } }`
+            // answered nil). Such a source cannot be expressed here, so it is not propagated.
             if let Some((source_prov, current, intersected)) = narrowing_info
                 && intersected != current
-                && !matches!(source_prov, Provenance::Parameter | Provenance::Unknown)
+                && !matches!(source_prov, Provenance::Unknown)
+                && !rooted_at_parameter(&source_prov)
             {
                 apply_narrowing(scopes, &source_prov, intersected, program);
             }
